@@ -28,7 +28,10 @@ def handlers : List (String × Handler) := [
   ("C07", Driver.C07.handle),
   ("C06", Driver.Provider.handle),
   ("C09", Driver.Provider.handle),
-  ("C12", Driver.C12.handle)
+  ("C12", Driver.C12.handle),
+  ("C19", fun j => match getStr j "world" with
+    | .ok "oauth1" => Driver.C12.handle j
+    | _ => Driver.Provider.handle j)
 ]
 
 def processLine (line : String) : String :=
